@@ -928,6 +928,48 @@ func runExp(m *model.Model, s *ob.Set) {
 			}
 		}
 	}
+	// (vi) arithmetic in int32 on a value that was narrowed from a wider integer just before
+	// (int32(ex) - 1): the wider value may sit at the end of the int32 range, where the result wraps
+	for _, fn := range m.Funcs {
+		if !m.InDecimalPkg(fn) || len(fn.Blocks) == 0 || fn.Synthetic != "" {
+			continue
+		}
+		live := m.Live(fn)
+		k := 0
+		for _, b := range fn.Blocks {
+			if !live[b.Index] {
+				continue
+			}
+			for _, in := range b.Instrs {
+				bo, ok := in.(*ssa.BinOp)
+				if !ok || (bo.Op != token.ADD && bo.Op != token.SUB) {
+					continue
+				}
+				bt, ok := bo.Type().Underlying().(*types.Basic)
+				if !ok || bt.Kind() != types.Int32 {
+					continue
+				}
+				var cv *ssa.Convert
+				for _, o := range []ssa.Value{bo.X, bo.Y} {
+					if c, ok := o.(*ssa.Convert); ok && isWideInt(c.X.Type()) {
+						cv = c
+					}
+				}
+				if cv == nil {
+					continue
+				}
+				if _, isConst := bo.Y.(*ssa.Const); !isConst {
+					if _, isConst2 := bo.X.(*ssa.Const); !isConst2 {
+						continue
+					}
+				}
+				k++
+				nsites++
+				lo, hi := rangeGuarded(fn, cv.X, b, bo.Op == token.SUB && cv == bo.X, bo.Op == token.ADD)
+				s.Check(lo && hi, R+"(vi)", fmt.Sprintf("%s/narrowed-then-stepped#%d", m.FuncName(fn), k), m.InstrPos(bo), "guarded by a comparison with the exponent limit", "a wide integer is narrowed to int32 and then stepped by a constant in int32: at the end of the exponent range the step wraps (do the arithmetic in the wide type, narrow afterwards)")
+			}
+		}
+	}
 	// (v) a caller's exponent (a wide integer parameter of an exported function) is not narrowed to
 	// int32 before anything has compared it with the limits: the narrowing keeps the low 32 bits,
 	// and an exponent of 2^32 becomes 0 (a helper that takes the exponent as int32 invites this)
@@ -2033,7 +2075,8 @@ func runDecNorm(m *model.Model, s *ob.Set) {
 	// φ cycles (a buffer threaded through a loop) are treated co-inductively: a φ already on
 	// the stack contributes nothing new, every other edge must be a normalised value.
 	onStack := map[*ssa.Phi]bool{}
-	var curRet ssa.Instruction // the return whose operand is being judged
+	var curRet ssa.Instruction  // the return whose operand is being judged
+	var curSite ssa.Instruction // where the value under judgement is taken (the return, or the end of a φ's incoming block)
 	var okVal func(v ssa.Value, d int) (bool, string)
 	okVal = func(v ssa.Value, d int) (bool, string) {
 		if d == 0 {
@@ -2070,7 +2113,11 @@ func runDecNorm(m *model.Model, s *ob.Set) {
 								wrote = true
 							}
 						}
-						if wrote && m.Reaches(in, curRet) {
+						site := curSite
+						if site == nil {
+							site = curRet
+						}
+						if wrote && m.Reaches(in, site) {
 							return false, "the buffer parameter " + x.Name() + ", whose words were written on the way (" + m.InstrPos(in) + "), returned without norm()"
 						}
 					}
@@ -2109,8 +2156,18 @@ func runDecNorm(m *model.Model, s *ob.Set) {
 			}
 			onStack[x] = true
 			defer delete(onStack, x)
-			for _, e := range x.Edges {
-				if ok, w := okVal(e, d-1); !ok {
+			for ei, e := range x.Edges {
+				// the value that comes in along this edge is judged where the edge leaves its
+				// block: a write on another way into the join is not on its way
+				save := curSite
+				if ei < len(x.Block().Preds) {
+					if pb := x.Block().Preds[ei]; len(pb.Instrs) > 0 {
+						curSite = pb.Instrs[len(pb.Instrs)-1]
+					}
+				}
+				ok, w := okVal(e, d-1)
+				curSite = save
+				if !ok {
 					return false, w
 				}
 			}
@@ -2169,7 +2226,7 @@ func runDecNorm(m *model.Model, s *ob.Set) {
 					continue
 				}
 				nret++
-				curRet = ret
+				curRet, curSite = ret, nil
 				if ok, why := okVal(r, 12); !ok {
 					bad = append(bad, fmt.Sprintf("%s: result %d is %s", m.InstrPos(ret), i, why))
 				}
